@@ -206,6 +206,39 @@ def parser_variants(fmt, path, gz_path, crlf_path, text, tier):
     return out
 
 
+def list_entry_points(fmt):
+    """(name, key group, fn(list of lines)) for every parser entry point that accepts the caller's own list"""
+    from cogent3.parse import fasta as pf
+    from cogent3.parse import paml as pp
+    from cogent3.parse import phylip as ph
+    from cogent3.parse.sequence import get_parser
+
+    if fmt == "fasta":
+        return [
+            ("iter_fasta_records(list)", "lines", lambda a: _pairs(pf.iter_fasta_records(a))),
+            ("MinimalFastaParser(list,strict)", "lines", lambda a: _pairs(pf.MinimalFastaParser(a, strict=True))),
+            ("MinimalFastaParser(list,nonstrict)", "lines", lambda a: _pairs(pf.MinimalFastaParser(a, strict=False))),
+            ("get_parser('fasta')(list)", "lines", lambda a: _pairs(get_parser("fasta")(a))),
+        ]
+    if fmt == "gde":
+        return [
+            ("MinimalGdeParser(list)", "lines", lambda a: _pairs(pf.MinimalGdeParser(a))),
+            ("get_parser('gde')(list)", "lines", lambda a: _pairs(get_parser("gde")(a))),
+        ]
+    if fmt == "phylip":
+        return [
+            ("MinimalPhylipParser(list)", "lines", lambda a: _pairs(ph.MinimalPhylipParser(a))),
+            ("get_parser('phylip')(list)", "lines", lambda a: _pairs(get_parser("phylip")(a))),
+            ("get_align_for_phylip(list)", "lines", lambda a: _project_coll(ph.get_align_for_phylip(a))),
+        ]
+    if fmt == "paml":
+        return [
+            ("PamlParser(list)", "lines", lambda a: _pairs(pp.PamlParser(a))),
+            ("get_parser('paml')(list)", "lines", lambda a: _pairs(get_parser("paml")(a))),
+        ]
+    return []
+
+
 def handle_variants(fmt, hpath, k, text, encpath, written):
     """(variant name, key group, thunk): parsers fed an open text handle positioned after k consumed lines,
     handles with another encoding / line end convention, and generators of lines"""
@@ -361,6 +394,10 @@ def run_case(job):
                 what = f"write+load {kind} {fmt}{cmp or ' plain'}"
                 out.append(("fail", f"{fmt}:roundtrip:{cls}:{d}", what,
                             {**base, "kind": kind, "file": fname, "observed": _show(got), "step": "write" if isinstance(w, Exception) else "load"}))
+        # the collection the caller keeps reads as before after being written
+        after_obj = _call(lambda: _project_coll(obj))
+        if after_obj != [(n, sq) for n, sq in zip(names, seqs)]:
+            out.append(("fail", f"{fmt}:write:{cls}:collection-modified", f"{kind}.write() changed the collection", {**base, "kind": kind, "observed": _show(after_obj)}))
         # the text on disk against the writer model (one-way diagnostic)
         if fmt != "json" and primary and plain_path is not None and plain_path.exists():
             with open(plain_path, "rb") as fh:
@@ -439,6 +476,36 @@ def run_case(job):
                 d = diff_kind(got, exp, allowed_bytes if group == "bytes" else allowed)
                 if d:
                     out.append(("fail", f"{fmt}:parse:{group}:{cls}:{d}", vname, {**base, "parser": vname, "consumed_lines": k, "file": hpath.name, "observed": _show(got)}))
+    # ARGUMENTS THE CALLER KEEPS: the list of lines handed to a parser must read as before after the call, and parsing
+    # the same object again must give the same records; the dict handed to a formatter must be unchanged
+    # (quick: the cases the handle variants skip; thorough: every case)
+    if text is not None and fmt != "json" and "arg_after_parse" in t and (tier == "thorough" or idx % 2 == 1):
+        after = [_s(l, mp) for l in t["arg_after_parse"]]
+        for vname, group, fn in list_entry_points(fmt):
+            arg = text.splitlines()
+            first = _call(lambda: fn(arg))
+            stats["parses"] += 2
+            stats["kept_argument_checks"] = stats.get("kept_argument_checks", 0) + 1
+            if arg != text.splitlines():
+                out.append(("fail", f"{fmt}:parse:{group}:{cls}:argument-modified", f"{vname} changed the caller's list of lines",
+                            {**base, "parser": vname, "argument_before": text.splitlines(), "argument_after": list(arg)}))
+            elif fmt != "fasta" and arg != after:
+                out.append(("drift", f"{fmt} caller's lines differ from the writer model", {**base, "argument": list(arg), "model": after}))
+            second = _call(lambda: fn(arg))
+            same = (isinstance(first, Exception) and isinstance(second, Exception)) or (not isinstance(first, Exception) and not isinstance(second, Exception) and first == second)
+            if not same:
+                out.append(("fail", f"{fmt}:parse:{group}:{cls}:second-parse-differs", f"{vname} called twice on the same list",
+                            {**base, "parser": vname, "first": _show(first), "second": _show(second)}))
+        if fmt in ("phylip", "paml", "gde", "fasta"):
+            from cogent3.format.alignment import FORMATTERS
+
+            darg = dict(data)
+            order = list(names)
+            w = _call(lambda: FORMATTERS[fmt](darg, order=order, **kw))
+            want = [(_s(r["name"]), _s(r["seq"], mp)) for r in t["arg_after_write"]]
+            if not isinstance(w, Exception) and (list(darg.items()) != want or order != [n for n, _ in want]):
+                out.append(("fail", f"{fmt}:write:{cls}:argument-modified", f"FORMATTERS[{fmt!r}] changed the caller's dict / order list",
+                            {**base, "argument_after": list(darg.items()), "order_after": order}))
     # the other writer routes (family O: names in non-alphabetical order): every route must give the oracle back
     for route in sorted(set(t.get("routes", [])) - {"write"}):
         obj = _call(lambda: cogent3.make_aligned_seqs(data, moltype=mtname))
